@@ -118,6 +118,28 @@ def raw_work(payload):
                         v = bw.BW(c(ms), tm0, tg0).numpy()
                         if not close(v, 1 / (m0 * m0 - ms * ms - 1j * m0 * g0)):
                             res.violation("BW:value", "BW != 1/(m0^2-m^2-i m0 G0)", case)
+    # q^2-based running width with m0 and/or m below threshold: the documented formula with the barrier polynomials
+    # continued to negative q^2 (a polynomial, hence unambiguous) and the principal square root
+    for L in payload["Ls"]:
+        for d in (1.0, 3.0, 5.0):
+            for m0 in (0.5, 0.62, 0.9):
+                q02 = (m0 * m0 - (M1 + M2) ** 2) * (m0 * m0 - (M1 - M2) ** 2) / (4 * m0 * m0)
+                mb = np.array([0.45, 0.6, 0.69, 0.75, 1.1])
+                q2 = (mb * mb - (M1 + M2) ** 2) * (mb * mb - (M1 - M2) ** 2) / (4 * mb * mb)
+                g0 = 0.1
+                r = (q2 / q02).astype(complex)
+                pol0, pol = R.bw_barrier_sq_vec(L, q02 * d * d), R.bw_barrier_sq_vec(L, q2 * d * d)
+                if abs(pol0) < 1e-9 or np.any(np.abs(pol) < 1e-9):
+                    continue
+                ref = g0 * r ** L * np.sqrt(r) * (m0 / mb) * pol0 / pol
+                got = np.asarray(bw.Gamma2(c(mb), c(g0), c(q2), c(q02), L, c(m0), d))
+                res.case(nontrivial_key=("gamma2-below", L, d, m0))
+                case = {"part": "raw", "L": L, "d": d, "seed": seed}
+                if not np.all(np.isfinite(got)):
+                    res.violation("Gamma2:below-finite", "Gamma2(L=%d,d=%r,m0=%r) not finite below threshold" % (L, d, m0), case)
+                elif not close(got, ref, 1e-9):
+                    k = int(np.argmax(np.abs(got - ref)))
+                    res.violation("Gamma2:below-value", "Gamma2(L=%d,d=%r,m0=%r) at m=%r (q^2=%.4g, q0^2=%.4g): %r, documented formula %r" % (L, d, m0, float(mb[k]), float(q2[k]), float(q02), complex(got[k]), complex(ref[k])), case)
     res.sample({"part": "raw", "Ls": payload["Ls"], "m_lattice": ms[:4].tolist()}, limit=1)
     return res.done()
 
